@@ -14,6 +14,7 @@ import (
 	_ "verifharness/props/c09"
 	_ "verifharness/props/c11"
 	_ "verifharness/props/c12"
+	_ "verifharness/props/c13"
 )
 
 func main() { mc.Main() }
